@@ -161,6 +161,14 @@ PROPS['C04'] = {
     'assumptions': ['oracle data: /verif/spec/v4_data.json extracted from claircore\'s independent port of the FIRST calculator (lookup table, highest-severity vectors, depths); algorithm in /verif/spec/cvss4_spec.py written from the specification text',
                     'the cube set is the product of the per-group tuple sets and each group is enumerated against the assumption conjuncts that mention its input bits only: a superset of the reachable cubes (sound); mismatches are confirmed by a solver query for a concrete object and replayed natively'],
 }
+# v4.0 part of C10: the C04 oracle harness decides it (the oracle sees the effective severity levels only, so
+# agreement on every solver-derived row means the score depends on the effective values only)
+PROPS['C10']['pkgs'] = ['h30', 'h31', 'h40']
+PROPS['C10']['reuse'] = ['C10_', 'C04_Score']
+PROPS['C10']['per_harness'] = {'h40': {'handler': 'fp_oracle'}, 'h30|h31': {'handler': 'fp_tabulate'}}
+PROPS['C10']['text'] += ' v4.0 Score: the C04 oracle harness is run as part of this check: every solver-derived row (frontier tuple x effective severity levels) has the exact specification score of its effective class, hence the score depends on the object only through the effective values, and supplemental metrics do not matter.'
+PROPS['C10']['bounds'] = 'the whole finite domain, decided without truncation: every pair of the 573,308,928,000 v3.x objects per version with equal effective values; all 267,483,013,447,680,000 v4.0 objects through their 15,116,544 effective classes'
+PROPS['C10']['assumptions'] = list(PROPS['C04']['assumptions'])
 PROPS['C11']['pkgs'] = ['h20', 'h30', 'h31', 'h40']
 PROPS['C12']['pkgs'] = ['h20', 'h30', 'h31', 'h40']
 PROPS['C12']['per_harness'] = {'h40': {'handler': 'fp_oracle'}, 'h20|h30|h31': {'handler': 'fp_tabulate'}}
